@@ -35,6 +35,11 @@ type compiler struct {
 	curStmt ast.Statement
 	inCheck bool
 	writing []writtenSlice // the arrays being written at the moment, outermost first
+	// the values the receiver roots of path continuations stand for: the
+	// identifier node at the root of what follows an index or a call (c in
+	// a[i].c.d, in f(x).c) is bound to the indexed value / the call's result.
+	// The node, not its name: a[i].c[a[0].n] mentions a again and means a.
+	recv map[*ast.Identifier]interface{}
 }
 
 // writtenSlice identifies an array by its storage.
@@ -544,6 +549,10 @@ func (c *compiler) evalLetStatement(node *ast.LetStatement) (interface{}, error)
 }
 
 func (c *compiler) evalIdentifier(node *ast.Identifier) (interface{}, error) {
+	if v, ok := c.recv[node]; ok && node.Callee == nil {
+		return v, nil
+	}
+
 	if node.Callee != nil {
 		c, err := c.evalExpression(node.Callee)
 		if err != nil {
@@ -1043,6 +1052,12 @@ func (c *compiler) evalCallExpression(node *ast.CallExpression) (interface{}, er
 // evalChainCallee resolves the path that continues after a call, f(x).a.b or
 // f(x).m(), against the call's value.
 func (c *compiler) evalChainCallee(node *ast.CallExpression, value interface{}) (interface{}, error) {
+	if root := calleeRoot(node.ChainCallee); root != nil {
+		defer c.bindRecv(root, value)()
+
+		return c.evalExpression(node.ChainCallee)
+	}
+
 	defer c.pushScope()()
 	// the rest of the path refers to the call's result by the name the
 	// parser put at the root of its receiver chain
@@ -1053,6 +1068,25 @@ func (c *compiler) evalChainCallee(node *ast.CallExpression, value interface{}) 
 	c.ctx.Set(key, value)
 
 	return c.evalExpression(node.ChainCallee)
+}
+
+// bindRecv makes the identifier node root stand for value and returns the
+// function that undoes it (the same node may be bound again further in: a
+// recursive function that indexes, a loop body).
+func (c *compiler) bindRecv(root *ast.Identifier, value interface{}) (restore func()) {
+	old, had := c.recv[root]
+	if c.recv == nil {
+		c.recv = map[*ast.Identifier]interface{}{}
+	}
+	c.recv[root] = value
+
+	return func() {
+		if had {
+			c.recv[root] = old
+		} else {
+			delete(c.recv, root)
+		}
+	}
 }
 
 // pushScope makes a child of the current context the current one and returns
@@ -1307,6 +1341,14 @@ func (c *compiler) evalArrayLiteral(node *ast.ArrayLiteral) (interface{}, error)
 }
 
 func (c *compiler) evalIndexCallee(rv reflect.Value, node *ast.IndexExpression) (interface{}, error) {
+	if root := calleeRoot(node.Callee); root != nil {
+		// the rest of the path refers to the indexed value through the
+		// identifier the parser put at the root of its receiver chain
+		defer c.bindRecv(root, rv.Interface())()
+
+		return c.evalExpression(node.Callee)
+	}
+
 	defer c.pushScope()()
 
 	//The key here is needed to set the object in ctx for later evaluation
